@@ -1261,9 +1261,14 @@ class NPProxy:
 
     def prod(self, x, *a, **kw):
         if isinstance(x, (list, tuple)) and any(isinstance(v, SInt) for v in x):
+            # NumPy multiplies python ints as int64 with silent wrap-around
             r = 1
             for v in x:
                 r = r * v
+                if isinstance(r, SInt) and r.kind == "int" and not r.is_concrete():
+                    # fork on overflow so that the common path keeps the plain product
+                    if cur().decide(z3.Or(r.e >= (1 << 63), r.e < -(1 << 63))):
+                        r = SInt(((r.e + (1 << 63)) % (1 << 64)) - (1 << 63), "int")
             return r
         return real_np.prod(x, *a, **kw)
 
